@@ -208,7 +208,8 @@ def work_layout(item):
                         c = call(ZConfig, "config", conf_schema, mode, arg)
                         got = {"k1": c.k1, "k2": c.k2, "j": c.j}
                     except Exception as e:      # noqa: BLE001
-                        got = "%s: %s" % (type(e).__name__, str(e)[:160])
+                        got = ("%s: %s" % (type(e).__name__, str(e)[:160])
+                               ).replace(root, "<root>")
                     finally:
                         os.chdir(home)
                     inp = {"tree": sorted(
@@ -288,7 +289,8 @@ def work_layout(item):
                         sobj = call(ZConfig, "schema", None, mode, arg)
                         got = schema_print(ZConfig, sobj)
                     except Exception as e:      # noqa: BLE001
-                        got = "%s: %s" % (type(e).__name__, str(e)[:160])
+                        got = ("%s: %s" % (type(e).__name__, str(e)[:160])
+                               ).replace(root, "<root>")
                     finally:
                         os.chdir(home)
                     inp = {"top": rel(stop, root),
@@ -365,7 +367,8 @@ def _frag(col, ZConfig, label, what, schema, mode, arg, root):
     except ZConfig.ConfigurationError:
         got = "ConfigurationError"
     except Exception as e:      # noqa: BLE001
-        got = "%s: %s" % (type(e).__name__, str(e)[:120])
+        got = ("%s: %s" % (type(e).__name__, str(e)[:120])
+               ).replace(root, "<root>")
     col.case(hash(("frag", label, arg)), None)
     if got != "ConfigurationError":
         col.violation("C18:fragment:%s:%s" % (label, got.split(":")[0]),
